@@ -95,12 +95,33 @@ fn fmt_rec(r: &EventRecord) -> String {
     format!("{}:{}@{}", &hex::encode(r.commit().as_ref())[..8], &hex::encode(dh)[..4], time_token(r.time()))
 }
 
+/// Logs 0..2 are folder logs; log 3 is an ACCOUNT log (file-system: a header with a version
+/// after the identity bytes; database: another table).  The operations go through the same
+/// EventLog trait; the payloads are the same bytes.
+pub enum AnyLog {
+    F(FolderEventLog),
+    A(sos_backend::AccountEventLog),
+}
+macro_rules! on {
+    ($log:expr, $x:ident => $e:expr) => {
+        match $log {
+            AnyLog::F($x) => $e,
+            AnyLog::A($x) => $e,
+        }
+    };
+}
+impl AnyLog {
+    pub fn tree(&self) -> &CommitTree {
+        on!(self, x => x.tree())
+    }
+}
+
 pub struct World {
     pub be: String,
     pub dir: PathBuf,
     pub ids: Vec<(AccountId, VaultId)>,
     pub target: BackendTarget,
-    pub logs: Vec<FolderEventLog>,
+    pub logs: Vec<AnyLog>,
     pub prev_head: Vec<Option<CommitProof>>,
 }
 
@@ -151,7 +172,7 @@ impl World {
             }
             BackendTarget::Database(paths, client)
         };
-        let mut w = World { be: be.to_string(), dir, ids, target, logs: vec![], prev_head: vec![None, None, None] };
+        let mut w = World { be: be.to_string(), dir, ids, target, logs: vec![], prev_head: vec![None, None, None, None] };
         w.open().await;
         w
     }
@@ -161,21 +182,26 @@ impl World {
         for (a, f) in &self.ids {
             let mut log = FolderEventLog::new_folder(self.target.clone(), a, f).await.unwrap();
             log.load_tree().await.unwrap();
-            self.logs.push(log);
+            self.logs.push(AnyLog::F(log));
         }
+        let mut alog = sos_backend::AccountEventLog::new_account(self.target.clone(), &self.ids[0].0).await.unwrap();
+        alog.load_tree().await.unwrap();
+        self.logs.push(AnyLog::A(alog));
     }
 
     pub async fn fwd(&self, i: usize, reverse: bool) -> Result<Vec<EventRecord>, String> {
-        let stream = self.logs[i].record_stream(reverse).await;
-        pin_mut!(stream);
-        let mut v = vec![];
-        while let Some(r) = stream.next().await {
-            match r {
-                Ok(r) => v.push(r),
-                Err(e) => return Err(format!("{e}")),
+        on!(&self.logs[i], x => {
+            let stream = x.record_stream(reverse).await;
+            pin_mut!(stream);
+            let mut v = vec![];
+            while let Some(r) = stream.next().await {
+                match r {
+                    Ok(r) => v.push(r),
+                    Err(e) => return Err(format!("{e}")),
+                }
             }
-        }
-        Ok(v)
+            Ok(v)
+        })
     }
 
     pub async fn observe(&self, id: &str, step: usize, out: &mut impl Write) {
@@ -196,13 +222,23 @@ impl World {
                 Err(_) => "ERR".to_string(),
             };
             // a fresh instance loading its tree from storage
-            let (a, fid) = &self.ids[i];
-            let re = match FolderEventLog::new_folder(self.target.clone(), a, fid).await {
-                Ok(mut l) => match l.load_tree().await {
-                    Ok(_) => format!("{}/{}", l.tree().root_hex().unwrap_or_else(|| "-".into()), l.tree().len()),
+            let re = if i < self.ids.len() {
+                let (a, fid) = &self.ids[i];
+                match FolderEventLog::new_folder(self.target.clone(), a, fid).await {
+                    Ok(mut l) => match l.load_tree().await {
+                        Ok(_) => format!("{}/{}", l.tree().root_hex().unwrap_or_else(|| "-".into()), l.tree().len()),
+                        Err(_) => "ERR/0".to_string(),
+                    },
                     Err(_) => "ERR/0".to_string(),
-                },
-                Err(_) => "ERR/0".to_string(),
+                }
+            } else {
+                match sos_backend::AccountEventLog::new_account(self.target.clone(), &self.ids[0].0).await {
+                    Ok(mut l) => match l.load_tree().await {
+                        Ok(_) => format!("{}/{}", l.tree().root_hex().unwrap_or_else(|| "-".into()), l.tree().len()),
+                        Err(_) => "ERR/0".to_string(),
+                    },
+                    Err(_) => "ERR/0".to_string(),
+                }
             };
             writeln!(out, "{id} {step} L{i} len={} root={root} fwd={fs} rev={rs} hashok={} re={re}", tree.len(), hashok as u8).unwrap();
         }
@@ -255,9 +291,9 @@ pub async fn run_case(line: &str, base: &std::path::Path, out: &mut impl Write) 
                 let recs = records_for(parts.get(2).copied().unwrap_or("")).await;
                 w.prev_head[l] = w.logs[l].tree().head().ok();
                 let r = if parts[0] == "ar" {
-                    w.logs[l].apply_records(recs).await
+                    on!(&mut w.logs[l], x => x.apply_records(recs).await)
                 } else {
-                    w.logs[l].patch_unchecked(&FolderPatch::new(recs)).await
+                    on!(&mut w.logs[l], x => x.patch_unchecked(&sos_core::events::patch::Patch::new(recs)).await)
                 };
                 match r { Ok(_) => "ok".into(), Err(e) => format!("err:{}", err_class(&e)) }
             }
@@ -265,7 +301,18 @@ pub async fn run_case(line: &str, base: &std::path::Path, out: &mut impl Write) 
                 let l: usize = parts[1].parse().unwrap();
                 let evs: Vec<WriteEvent> = parts[2].split(',').map(|k| event_for(k.parse().unwrap())).collect();
                 w.prev_head[l] = w.logs[l].tree().head().ok();
-                match w.logs[l].apply(&evs).await { Ok(_) => "ok".into(), Err(e) => format!("err:{}", err_class(&e)) }
+                let r = match &mut w.logs[l] {
+                    AnyLog::F(x) => x.apply(&evs).await,
+                    AnyLog::A(x) => {
+                        // apply() = encode each event, then apply_records
+                        let mut recs = vec![];
+                        for e in &evs {
+                            recs.push(EventRecord::encode_event(e).await.unwrap());
+                        }
+                        x.apply_records(recs).await
+                    }
+                };
+                match r { Ok(_) => "ok".into(), Err(e) => format!("err:{}", err_class(&e)) }
             }
             "pc" => {
                 let l: usize = parts[1].parse().unwrap();
@@ -275,7 +322,7 @@ pub async fn run_case(line: &str, base: &std::path::Path, out: &mut impl Write) 
                     None => "noproof".into(),
                     Some(p) => {
                         let before = w.logs[l].tree().head().ok();
-                        let r = w.logs[l].patch_checked(&p, &FolderPatch::new(recs)).await;
+                        let r = on!(&mut w.logs[l], x => x.patch_checked(&p, &sos_core::events::patch::Patch::new(recs)).await);
                         match r {
                             Ok(CheckedPatch::Success(_)) => { w.prev_head[l] = before; "success".into() }
                             Ok(CheckedPatch::Conflict { contains, .. }) => {
@@ -300,7 +347,7 @@ pub async fn run_case(line: &str, base: &std::path::Path, out: &mut impl Write) 
                     None => "notarget".into(),
                     Some(c) => {
                         w.prev_head[l] = w.logs[l].tree().head().ok();
-                        match w.logs[l].rewind(&c).await {
+                        match on!(&mut w.logs[l], x => x.rewind(&c).await) {
                             Ok(recs) => format!("ok rewound={}", recs.iter().map(fmt_rec).collect::<Vec<_>>().join(",")),
                             Err(e) => format!("err:{}", err_class(&e)),
                         }
@@ -310,7 +357,7 @@ pub async fn run_case(line: &str, base: &std::path::Path, out: &mut impl Write) 
             "cl" => {
                 let l: usize = parts[1].parse().unwrap();
                 w.prev_head[l] = w.logs[l].tree().head().ok();
-                match w.logs[l].clear().await { Ok(_) => "ok".into(), Err(e) => format!("err:{}", err_class(&e)) }
+                match on!(&mut w.logs[l], x => x.clear().await) { Ok(_) => "ok".into(), Err(e) => format!("err:{}", err_class(&e)) }
             }
             "ra" => {
                 let l: usize = parts[1].parse().unwrap();
@@ -324,8 +371,11 @@ pub async fn run_case(line: &str, base: &std::path::Path, out: &mut impl Write) 
                     None => "noproof".into(),
                     Some(p) => {
                         w.prev_head[l] = w.logs[l].tree().head().ok();
-                        let diff = FolderDiff { last_commit: None, checkpoint: p, patch: FolderPatch::new(recs) };
-                        match w.logs[l].replace_all_events(&diff).await {
+                        let res = match &mut w.logs[l] {
+                            AnyLog::F(x) => x.replace_all_events(&FolderDiff { last_commit: None, checkpoint: p, patch: FolderPatch::new(recs) }).await,
+                            AnyLog::A(x) => x.replace_all_events(&sos_core::events::patch::AccountDiff { last_commit: None, checkpoint: p, patch: sos_core::events::patch::Patch::new(recs) }).await,
+                        };
+                        match res {
                             Ok(_) => "ok".into(),
                             Err(e) => format!("err:{}", err_class(&e)),
                         }
